@@ -24,7 +24,7 @@ def _alarm(s, f):
 def sz_instances(tier):
     """molecules with a start node (a prefix token) and Schulz-Zimm distributions"""
     base = [m for m in I.core_instances() + I.extra_instances() if any(isinstance(e, Sto) for e in m.elems)
-            and not m.name.startswith(("neg", "plain", "negative", "target", "handover", "list-into", "triple", "star", "dollar-ids"))]
+            and not m.name.startswith(("neg", "plain", "negative", "target", "handover", "list-into", "triple", "star", "dollar-ids", "suffix-behind"))]      # (suffix-behind-27-tokens: an atom graph of 400 atoms, nothing C18 does not see on smaller ones)
     extra = [
         M("C[>]", S("[>]", ["[<]CC([>])c1ccccc1"], ["[<]C(C)(C)C", "[>]OC"], "[<]", None), "[<]CCO", name="multi-atom-endgroups"),
         M("N[$]", S("[$]", ["[$]CC([$])C[$]", "[$]CO[$]"], ["[$]C(=O)O", "[$][H]"], "[$]", None), "[$]F", name="branched-dollar-endgroups"),
